@@ -9,31 +9,31 @@ CLAIMED = {
          "Model hand-written; tie = differential runs on generated histories; lengths < 2^32."),
  "C02": ("Lean proof: flush_then_open + history refinement Machine.reopen_shows_last_flush; correspondence on file images",
          "For every history of collection ops, Set/Delete, Flush and re-open (to any depth), re-opening shows exactly the state at the last Flush (theorem reopen_is_last_flush; side conditions: plain names, sizes < 2^32). The Go package and the model are compared on full state dumps and byte-exact file images after flushes and re-opens.",
-         "JSON names with escapes are covered by correspondence only (root_roundtrip_partial)."),
+         "The history theorem's side condition excludes collection names that need JSON escapes; the root-record round trip for such names is C14.root_roundtrip, their behaviour in histories is covered by the correspondence runs (the name pool contains them)."),
  "C06": ("Lean proof: visit = foldUntil over filtered in-order list with depths; correspondence",
          "ascend_exact/descend_exact: for every search tree, target, visitor and state, the visit delivers exactly the filtered in-order items with true depths and stops after the first rejection. Compared against the package for both directions, value modes, targets and stop positions in all cache states.",
-         "Iterators are compared through the c18 stream once registered."),
+         "Iterators are compared through the c18 stream; the C12n profile (no load-time comparator callback, SetCollection installs the comparator after every open) runs here too."),
  "C08": ("Lean proof: scanRoots_revert / revertStore_prev / revertStore_none; divergence of the pinned loop; correspondence",
          "FlushRevert lands on the greatest complete root record below the current end and truncates there, or empties the store; the scan is total by structural recursion (the pinned loop is proved to diverge: defect F2, fixed). Compared on histories with many flushes/reverts/re-opens; hangs are caught by a watchdog.",
-         "After a failed Flush see known finding F10 (C07)."),
+         "FlushRevert after a FAILED Flush was defect F10 (repaired); the fault stream reverts directly after failed flushes. `c08s` sweeps the size of the flush being reverted over across every power of two from 512 to 8192."),
  "C10": ("Lean proof of the version/mark/reclaim protocol (safe_reachable) + heap-invariant evaluation on the real heap",
          "For every sequence of acquire/release/load/mutate events and every choice of freed nodes no node of a live version is freed. The harness evaluates the invariant clauses on the implementation's heap (free list, marks, refcounts via verif hooks) after every step of histories with snapshots, replaced/removed collections, nested visits, foreign-store churn.",
          "Mutation is one atomic event in the abstract protocol; node identity abstracted to ids."),
  "C12": ("Lean proof: Machine.refinement with SetCollection/RemoveCollection; correspondence",
          "The store refines the specification in which SetCollection keeps/creates, RemoveCollection drops, names are sorted, durability only at Flush; compared against the package on names and contents after every step and re-open.",
-         "SetCollection on an existing name is generated with the same comparator kind."),
+         "In the main profile a name always maps to the same comparator; profile C12n opens stores WITHOUT the load-time comparator callback and installs each comparator with SetCollection on the existing name (the documented pattern), so 'only installs the new comparator' is exercised with a real change. Static: cas_compares_what_was_read (regenerated Gen/Cas.lean); supplementary: no_lost_collection_update on Model CasLoop (schedules are outside C12's quantifier). Use of a REPLACED handle is use-after-close (nil dereference) and is not covered."),
  "C13": ("Lean proof: BST/AggOK invariants, heap order under NoLowerOverwrite, canonical_unique; shape correspondence",
          "invariants hold after every history; heap order under the stated hypothesis (and a proved counterexample without it); with distinct priorities the in-order depth list is a function of the item set. The package's tree (depths via the Ex visitor, per-node aggregates via the verif walk) is compared with the model's shape.",
-         "Under tied priorities shapes are compared with the model (both follow the same tie rule)."),
+         "Under tied priorities shapes are compared with the model (both follow the same tie rule). Depths are also compared for visits with arbitrary targets (C13 and C13any profiles)."),
  "C16": ("Lean proof: len_eq, visitBlocks_perm, visitRandom_perm for every size; correspondence at sizes 0..70, 1023..1025, 2047..2049",
          "For every search tree and every permuting mangler/shuffle the block visitors deliver a permutation of the items; Len is exact. Compared (as sorted multisets) against the package for every n in 0..70 and around 1024/2048 (thorough: 3072, 5000, random sizes).",
-         "Early stop inside a block is not part of the compared observable."),
+         "Early stop inside a block is not part of the compared observable. Besides the size sweep, profile C16 measures (Len, both block enumerations) between mutations and under snapshots."),
  "C03": ("Lean proof: scan_crash_atomic / openStore_crash_atomic (greatest valid root end), append-only prefix; crash-image enumeration",
-         "For every image that keeps the bytes below the last durable end E and has no complete root record above E, opening lands exactly on the flush that ended at E; every Flush write (torn or not) keeps that prefix. The harness cuts the write log at every write boundary, every byte of root-record writes and sampled (thorough: all) bytes of other writes, with magic-marker values and altered copies of root records as junk, re-opens each image with the real package and the model, and continues a sample of recovered stores.",
+         "For every image that keeps the bytes below the last durable end E and has no complete root record above E, opening lands exactly on the flush that ended at E; every Flush write (torn or not) keeps that prefix. The harness cuts the write log at every write boundary, every byte of root-record writes and sampled (thorough: all) bytes of other writes, with magic-marker values, altered copies of root records, VERBATIM copies of earlier root records and a tail-length boundary sweep (junk of every length around each power of two from 512 to 8192) as junk, re-opens each image with the real package and the model, and continues a sample of recovered stores.",
          "The junk hypothesis (no complete self-consistent root record above E) is the property's own exclusion."),
  "C05": ("Lean proof on interleaving Model C (all schedules) + lock-discipline theorems on regenerated lock tables + deterministic-scheduler trace validation",
          "read_one_version, no_lost_update, flush_persists_current_versions, flush_name_order, no_deadlock for all programs and all schedules of the model; no mutex held across file I/O or callbacks and a fixed lock order (decide on tables regenerated from /repo). The real package is run under a seeded cooperative scheduler (yield hooks, file calls, visitor callbacks) and every read / every concurrent Flush image is validated against the version it pinned.",
-         "PARTIAL by nature: Go memory-model races on unsynchronised cache fills and real scheduler behaviour are outside the model; schedules are sampled, mutation marking is treated as atomic in Model H."),
+         "PARTIAL by nature: Go memory-model races on unsynchronised cache fills (the package has them: DESIGN.md section 10) are outside every model; a supplementary stream c05s runs real goroutines (one mutator, one flusher, readers; single-version visits, no panic/hang, final content) - it searches, it proves nothing, its replays are not deterministic; schedules are sampled, mutation marking is treated as atomic in Model H."),
  "C07": ("Lean proof of fault-injected Flush (any k-th write, any torn length): reported, changes nothing, keeps durable bytes, retry is ordinary; fault enumeration at every file call",
          "Theorems over the model's fault plan; the harness injects one fault at every individual ReadAt/WriteAt/Stat/Truncate (sampled in quick, all in thorough; torn writes of sampled/all lengths), continues the history, and compares (a) with the fault-aware model, (b) with the specification 'as if the failed call had never been made', plus heap-invariant checks after every failed call.",
          "Read faults are modelled as 'no state change' (the model has no cache); their real-code effect is covered by enumeration. KNOWN FINDING F14 (known_findings.json, corpus/F14): Exist(key) has no error result and answers false for a stored key when a read fails - the property is known to fail there; the check injects faults into Exist, prints KNOWN-FINDING for exactly that shape (failed call is an `exist`, answer `false`) and still reports every other failed call that reports success. EvictSomeItems (best-effort cache hint, no error result, no answer to get wrong) is not an injected operation."),
@@ -45,13 +45,13 @@ CLAIMED = {
          "'holds only live data (no superseded item versions)' is copy_holds_only_live_item_records: on the model, for fe > 0 and well-formed sources, the item records written are exactly (as a multiset) the destination's live (item, location) pairs, pairwise disjoint and inside the file; node records are superseded by periodic flushes and the theorem does not say otherwise. It reaches the code through the byte-exact comparison of destination images with the model's in the stream."),
  "C14": ("Lean proof: codec round trips, root record, flush_then_open with the independent decoder; decide on regenerated constants; decoder run on the implementation's bytes",
          "Item/node/root round trips, decode_flushed_file, coherent (children-before-parent) layout; obligations on constants regenerated from /repo (version, magics, header offsets, record lengths, JSON tags, byte order). Every flushed image of the package is decoded by the Lean codec and compared with what the package reads back, and byte-compared with the model's image.",
-         "Names needing JSON escapes: executable codec + correspondence only (root_roundtrip_partial)."),
+         "root_roundtrip covers every collection name (Go's JSON escaping included); root_roundtrip_partial is the earlier escape-free statement. The profile also fills 70-260 items into one flush."),
  "C17": ("Lean proof: chunked value writes/reads equal single ones; correspondence under random subsets of callbacks",
          "In the model a neutral callback is the identity; the non-trivial part (chunked ItemValWrite/ItemValRead) is proved. The package runs the C01/C02/C06/C14 observables with random subsets (thorough: many more) of the eight callbacks installed and is compared with the callback-free model, file images included.",
-         "Chunk sizes 3 (write) and 5 (read) in the harness callbacks."),
+         "Chunk sizes 3 (write) and 5 (read) in the harness callbacks; profile C17c keeps values chunked IN MEMORY as tools/slab does (Item.Val = first chunk, rest in Transient; found defect F12); C19's read-log checks also run under every neutral callback subset (C19cb); a non-identity encode/decode hook pair (outside 'neutral') runs under C04 (C04t)."),
  "C18": ("Lean proof on the two-goroutine iterator model (all programs, all interleavings) + lock-discipline tables; iterator and nested-callback correspondence",
          "no_panic, no_deadlock, terminates, producer_exits_and_unpins, next_after_end_is_false, observable_deterministic for every item list, consumer program and interleaving; callbacks never run under a mutex (regenerated tables). Real iterators are driven with random Next/Close programs; outputs, goroutine count and version pin are checked; visitor callbacks issue nested reads and mutations.",
-         "PARTIAL: real scheduler interleavings of the two goroutines are sampled, not enumerated; abandoned iterators are excluded by the property."),
+         "PARTIAL: real scheduler interleavings of the two goroutines are sampled, not enumerated. An iterator that is exhausted is NOT closed by the harness (the property says 'after Close() or exhaustion'); an iterator abandoned mid-way without Close is outside the property. Static: pins_released_on_every_path (regenerated Gen/Pins.lean). The real-goroutine stress stream c05s (abandoned iterators + AllocStats against dying versions) and a fault stream with iterators run here too."),
  "C15": ("Lean proof of the reference accounting invariant over all event sequences + leak-freedom of the version protocol when no slot is copied unloaded + regenerated obligation on the code's slot copies; callback-log predicates on the implementation",
          "accounting / never_negative / reachable_positive / closed_balanced_partial for every precondition-respecting sequence of the seven reference events; nodes_freed_or_orphan, nodes_all_freed_if_no_load_under_replaced, nodes_not_all_freed on the version protocol; slots_loaded_before_copied (decide over Gen/SlotCopies.lean, regenerated from /repo). The package runs with counting ItemAlloc/ItemAddRef/ItemDecRef callbacks over histories with snapshots, evictions, flushes, re-opens, nested visits, cold mutations under snapshots; after every step no count is negative and every cached reachable item is positive; after closing everything all counts are zero.",
          "closed_balanced_partial assumes every node object was freed. That assumption was FALSE of the pinned code (defect F11, repaired by /repo c2c929d, replays in corpus/); for the repaired code it is supported by the model theorem nodes_all_freed_if_no_load_under_replaced, the syntactic obligation slots_loaded_before_copied (textual order within a function, not dominance) and the refbalance predicate on the histories run - not by a proof about the Go code. The event model is tied to the code only through these predicates (not an event-by-event log comparison); Get's aliasing reference is counted as the caller's; faults are outside C15's quantifier."),
